@@ -66,7 +66,7 @@ def gen(rng, n_cases, algos=None, gens=(2, 5)):
         # the problem now declares; optionally a second algorithm started from the very same individuals and advanced in turn
         cfg["warm"] = None
         cfg["twin"] = False
-        if algo in ("de", "nsde", "gde3", "nsder") and rng.randint(5) == 0:
+        if algo in ("de", "nsde", "gde3", "nsder") and rng.randint(2 if algo == "de" else 5) == 0:
             cfg["warm"] = ["same", "wide"][rng.randint(2)]
             cfg["twin"] = bool(algo == "de" and rng.randint(3) != 0)
         # a degenerate generation: every user-made infill is a clone of its target (nothing can be replaced, every pair ties)
